@@ -56,6 +56,20 @@ fn real_table(name: &str) -> Option<[Option<u16>; 256]> {
 }
 
 // ---------------------------------------------------------------- published charts (oracle)
+/// the full published chart of a predefined encoding: generated once by tools/mkcharts.py from sources other
+/// than lopdf (python3 cp1252 / mac_roman / latin_1 + the deviations of ISO 32000-1 Annex D; Standard and MacExpert
+/// frozen at the pinned commit) and committed as `c16_charts.txt`
+fn full_chart(name: &str) -> Option<Vec<Option<u16>>> {
+    let key = match name { "StandardEncoding" => "STANDARD_ENCODING", "MacRomanEncoding" => "MAC_ROMAN_ENCODING", "MacExpertEncoding" => "MAC_EXPERT_ENCODING",
+                           "WinAnsiEncoding" => "WIN_ANSI_ENCODING", "PDFDocEncoding" => "PDF_DOC_ENCODING", _ => return None };
+    for line in include_str!("c16_charts.txt").lines() {
+        if let Some((n, cells)) = line.split_once(' ') {
+            if n == key { return Some(cells.split(',').map(|c| if c == "_" { None } else { u16::from_str_radix(c, 16).ok() }).collect()); }
+        }
+    }
+    None
+}
+
 /// Some(Some(u)) = the chart says byte b is u; Some(None) = chart says undefined; None = chart silent here
 fn chart(name: &str, b: u8) -> Option<Option<u16>> {
     const MAC_80_9F: [u16; 32] = [0xC4, 0xC5, 0xC7, 0xC9, 0xD1, 0xD6, 0xDC, 0xE1, 0xE0, 0xE2, 0xE4, 0xE3, 0xE5, 0xE7, 0xE9, 0xE8,
@@ -138,6 +152,19 @@ fn rand_scalar(r: &mut Rng) -> char {
     }
 }
 fn rand_string(r: &mut Rng, max: usize) -> String { let n = r.usize(max + 1); (0..n).map(|_| rand_scalar(r)).collect() }
+/// strings over a small alphabet of "structural" code points, length 0..12, and whole patterns (language escape
+/// sequences ESC ll ESC / ESC llCC ESC, marks inside the text, surrogate-boundary characters next to ASCII, NUL runs)
+fn structural_string(r: &mut Rng) -> String {
+    const ALPHA: [u32; 22] = [0x1B, 0xFEFF, 0xFFFE, 0x0000, 0x00FF, 0x0100, 0xD7FF, 0xE000, 0xFFFD, 0x10000, 0x10FFFF, 0x7F, 0x0A,
+                              0x61, 0x62, 0x65, 0x6E, 0x55, 0x53, 0x7A, 0x41, 0x20];
+    const PATTERNS: [&str; 14] = ["\u{1b}en\u{1b}", "\u{1b}enUS\u{1b}", "\u{1b}de\u{1b}Hallo", "a\u{1b}fr\u{1b}b\u{1b}frCA\u{1b}c", "\u{1b}\u{1b}", "\u{1b}e\u{1b}",
+                                 "\u{1b}eng\u{1b}", "\u{feff}\u{feff}", "\u{fffe}a", "\u{ef}\u{bb}\u{bf}", "\u{fe}\u{ff}", "\u{0}\u{0}\u{0}", "\u{d7ff}a\u{e000}", "\u{10000}\u{1b}xx\u{1b}\u{10ffff}"];
+    match r.below(4) {
+        0 => { let mut s = String::new(); for _ in 0..(1 + r.usize(3)) { if r.chance(1, 3) { s.push(char::from_u32(*r.pick(&ALPHA)).unwrap()); } s.push_str(*r.pick(&PATTERNS[..])); } s }
+        1 => { let n = 13 + r.usize(200); let c = char::from_u32(*r.pick(&ALPHA)).unwrap(); let mut s: String = std::iter::repeat(c).take(n).collect(); if r.chance(1, 2) { s.push_str(*r.pick(&PATTERNS[..])); } s }
+        _ => { let n = r.usize(13); (0..n).map(|_| char::from_u32(*r.pick(&ALPHA)).unwrap()).collect() }
+    }
+}
 fn printable_ascii(r: &mut Rng, max: usize) -> String { let n = r.usize(max + 1); (0..n).map(|_| (0x20 + r.below(0x5F) as u8) as char).collect() }
 /// printable ASCII only (the texts `text_string` keeps as a PDFDocEncoding literal)
 fn printable(s: &str) -> bool { s.bytes().all(|b| (0x20..0x7F).contains(&b)) }
@@ -199,6 +226,7 @@ before and after save_to + load_mem. Non-trivial = input not empty and not plain
         };
         let enc = f.get_font_encoding(&doc0).unwrap();
         let rep = repertoire(&table);
+        let fchart = full_chart(name).expect("chart file");
         // single bytes, exhaustively
         for b in 0..=255u8 {
             let Some(_r) = c.case(&format!("byte.{}", name), b as u64) else { continue };
@@ -209,7 +237,16 @@ before and after save_to + load_mem. Non-trivial = input not empty and not plain
             match &res {
                 Ok(Ok(s)) => {
                     if s.is_empty() { c.count(&format!("byte.{}.undefined", name)); } else { c.count(&format!("byte.{}.defined", name)); }
-                    // chart agreement
+                    // the published chart, all 256 codes of all five encodings
+                    {
+                        let got: Option<u16> = { let u: Vec<u16> = s.encode_utf16().collect(); if u.len() == 1 { Some(u[0]) } else if u.is_empty() { None } else { Some(0xFFFF) } };
+                        c.count("chart.full_cells_checked");
+                        if got != fchart[b as usize] {
+                            c.oracle_fail("chart:mismatch", "decoding the byte does not give the character the published chart assigns",
+                                json!({"encoding": name, "byte": b, "byte_hex": format!("{:02x}", b), "chart": format!("{:?}", fchart[b as usize].map(|u| format!("U+{:04X}", u))), "got": format!("{:?}", got.map(|u| format!("U+{:04X}", u)))}));
+                        }
+                    }
+                    // chart agreement (the ranges the property text names, written out by hand above)
                     if let Some(exp) = chart(name, b) {
                         let got: Option<u16> = { let u: Vec<u16> = s.encode_utf16().collect(); if u.len() == 1 { Some(u[0]) } else if u.is_empty() { None } else { Some(0xFFFF) } };
                         c.count("chart.cells_checked");
@@ -343,9 +380,10 @@ fn rest(c: &mut Ctx) {
     let n_ts = c.n(1500, 40000);
     for i in 0..n_ts {
         let Some(mut r) = c.case("ts", i) else { continue };
-        let s = match r.below(6) {
+        let s = match r.below(8) {
             0 => printable_ascii(&mut r, 30),
             5 => { let n = r.usize(16); (0..n).map(|_| r.below(0x80) as u8 as char).collect() }      // ASCII incl. C0 controls and DEL
+            6 | 7 => structural_string(&mut r),
             1 => { let mut s = rand_string(&mut r, 12); s.push('\u{FEFF}'); s.push_str(&rand_string(&mut r, 4)); s }
             2 => { let mut s = String::from("\u{FEFF}"); s.push_str(&rand_string(&mut r, 8)); s }
             _ => rand_string(&mut r, 24),
